@@ -456,11 +456,34 @@ func (w *world) placementKeys() []*keys.PrivateKey {
 
 // ensureRoster commits a roster (one placement vector, REP 2 of 3 keys) for the container.
 func (w *world) ensureRoster(cid []byte) {
-	if w.storageHas("container", append(append([]byte{'r'}, cid...), 0)) {
+	// exactly the three placement keys in vector 0, REP 2, nothing pending?
+	var nodes, pending int
+	good := true
+	rep := []byte(nil)
+	pk := w.placementKeys()
+	for _, kv := range w.c.Scan(w.h["container"]) {
+		switch {
+		case bytes.HasPrefix(kv.K, append([]byte{'n'}, cid...)):
+			nodes++
+			found := false
+			for _, k := range pk {
+				found = found || bytes.Equal(kv.V, k.PublicKey().Bytes())
+			}
+			good = good && found && kv.K[33] == 0
+		case bytes.HasPrefix(kv.K, append([]byte{'u'}, cid...)):
+			pending++
+		case bytes.Equal(kv.K, append(append([]byte{'r'}, cid...), 0)):
+			rep = kv.V
+		}
+	}
+	if good && nodes == len(pk) && pending == 0 && len(rep) == 1 && rep[0] == 2 {
 		return
 	}
+	if nodes > 0 || pending > 0 {
+		w.must(w.god(), w.h["container"], "commitContainerListUpdate", cid, []byte{}) // flush whatever is pending
+	}
 	var ks []any
-	for _, k := range w.placementKeys() {
+	for _, k := range pk {
 		ks = append(ks, k.PublicKey().Bytes())
 	}
 	w.must(w.god(), w.h["container"], "addNextEpochNodes", cid, int64(0), ks)
@@ -556,18 +579,17 @@ func (w *world) contractVersion(name string) int64 { return w.callInt(w.h[name],
 
 // ---------------------------------------------------------------- bumped-version executables for `update`
 
-var (
-	scratchRoot string
-	bumpedVer   int64
-)
+var scratchRoots = map[int]string{}
 
-// bumped compiles contracts/<src> from a scratch copy of the repository under test whose
-// common/version.go has patch+1 (an `update` succeeds only towards a higher version).
-func (w *world) bumped(src string) *neotest.Contract {
-	if scratchRoot == "" {
+// bumpedK compiles contracts/<src> from a scratch copy of the repository under test whose
+// common/version.go has patch+k (an `update` succeeds only towards a higher version).
+func (w *world) bumpedK(src string, k int) *neotest.Contract {
+	root := scratchRoots[k]
+	if root == "" {
 		d, err := os.MkdirTemp("", "verif-access-")
 		require.NoError(w.t, err)
-		scratchRoot = d
+		root = d
+		scratchRoots[k] = d
 		repo := chainx.Repo()
 		for _, f := range []string{"go.mod", "go.sum"} {
 			b, err := os.ReadFile(filepath.Join(repo, f))
@@ -575,8 +597,7 @@ func (w *world) bumped(src string) *neotest.Contract {
 			require.NoError(w.t, os.WriteFile(filepath.Join(d, f), b, 0o644))
 		}
 		for _, sub := range []string{"common", "contracts"} {
-			root := filepath.Join(repo, sub)
-			err := filepath.Walk(root, func(p string, info os.FileInfo, err error) error {
+			err := filepath.Walk(filepath.Join(repo, sub), func(p string, info os.FileInfo, err error) error {
 				if err != nil {
 					return err
 				}
@@ -603,18 +624,54 @@ func (w *world) bumped(src string) *neotest.Contract {
 		if m == nil {
 			w.t.Fatal("common/version.go: patch constant not found")
 		}
-		p, _ := strconv.Atoi(string(m[2]))
-		b = re.ReplaceAll(b, []byte(fmt.Sprintf("${1}%d", p+1)))
+		pv, _ := strconv.Atoi(string(m[2]))
+		b = re.ReplaceAll(b, []byte(fmt.Sprintf("${1}%d", pv+k)))
 		require.NoError(w.t, os.WriteFile(vf, b, 0o644))
 	}
-	return w.compileDir(filepath.Join(scratchRoot, "contracts", src), w.c.Cmt.ScriptHash())
+	return w.compileDir(filepath.Join(root, "contracts", src), w.c.Cmt.ScriptHash())
+}
+
+// bumpedNext: the executable of the deployed contract <name> one patch version above what it runs now
+// (every successful `update` of a world moves the contract one version up, so each positive cell has its own).
+func (w *world) bumpedNext(name string) *neotest.Contract {
+	k := int(w.contractVersion(name)-parseVersion(chainx.Repo())) + 1
+	if k < 1 || k > 8 {
+		k = 1
+	}
+	return w.bumpedK(w.src[name], k)
+}
+
+// updateArgs: arguments of update() carrying the next version of the contract.
+func (w *world) updateArgs(name string) []any {
+	ct := w.bumpedNext(name)
+	neb, _ := ct.NEF.Bytes()
+	mb, _ := json.Marshal(ct.Manifest)
+	if w.src[name] == "nns" {
+		return []any{neb, string(mb), nil}
+	}
+	return []any{neb, mb, nil}
 }
 
 func cleanupScratch() {
-	if scratchRoot != "" {
-		os.RemoveAll(scratchRoot)
-		scratchRoot = ""
+	for k, d := range scratchRoots {
+		os.RemoveAll(d)
+		delete(scratchRoots, k)
 	}
+}
+
+// ---------------------------------------------------------------- NeoFSAlphabet role (Inner Ring list)
+
+// designate sets the NeoFSAlphabet role to the given keys (one block; effective for the blocks after it).
+func (w *world) designate(keys []neotest.SingleSigner) {
+	w.must([]neotest.Signer{w.c.Cmt, w.c.Alpha}, w.desig, "designateAsRole", int64(noderoles.NeoFSAlphabet), pubsAny(keys))
+}
+
+func accountsOf(ss []neotest.SingleSigner) []*wallet.Account {
+	out := make([]*wallet.Account, len(ss))
+	for i := range ss {
+		out[i] = ss[i].Account()
+	}
+	return out
 }
 
 func bigOf(it stackitem.Item) *big.Int {
